@@ -151,12 +151,28 @@ class Folder:
                 if a and a[0] == 'module' and a[2] and a[1] in self.src.mods:
                     return self.lookup(a[1], n.attr)
             raise Unfoldable(f'attribute {unparse(n)}')
-        if isinstance(n, (ast.Tuple, ast.List)):
-            return tuple(self.ev(mn, e, local) for e in n.elts)
-        if isinstance(n, ast.Set):
-            return frozenset(self.ev(mn, e, local) for e in n.elts)
+        if isinstance(n, (ast.Tuple, ast.List, ast.Set)):
+            out_ = []
+            for e in n.elts:
+                if isinstance(e, ast.Starred):
+                    v_ = self.ev(mn, e.value, local)
+                    if not isinstance(v_, (tuple, list, frozenset, str, dict)):
+                        raise Unfoldable('starred value')
+                    out_.extend(v_)
+                else:
+                    out_.append(self.ev(mn, e, local))
+            return frozenset(out_) if isinstance(n, ast.Set) else tuple(out_)
         if isinstance(n, ast.Dict):
-            return {self.ev(mn, k, local): self.ev(mn, v, local) for k, v in zip(n.keys, n.values)}
+            d_ = {}
+            for k, v in zip(n.keys, n.values):
+                if k is None:
+                    v_ = self.ev(mn, v, local)
+                    if not isinstance(v_, dict):
+                        raise Unfoldable('** of a non-dict')
+                    d_.update(v_)
+                else:
+                    d_[self.ev(mn, k, local)] = self.ev(mn, v, local)
+            return d_
         if isinstance(n, ast.Call):
             cn = call_name(n)
             if cn == 'ord' and len(n.args) == 1:
@@ -381,6 +397,30 @@ class Inventory:
                                            mod.where(call), 'derived', call, func))
                     continue
                 self.unresolved.append((mod.where(call), f'{mn}.{func}', unparse(call)))
+
+            # 2b. re.match(PATTERN, text, flags) ...: the module-level functions applied to a constant pattern text
+            a_re = mod.aliases.get('re')
+            if a_re and a_re[0] == 'module' and a_re[1] == 're':
+                for call in [c for c in ast.walk(mod.tree) if isinstance(c, ast.Call)]:
+                    f = call.func
+                    if not (isinstance(f, ast.Attribute) and isinstance(f.value, ast.Name) and f.value.id == 're'
+                            and f.attr in ('match', 'search', 'fullmatch', 'finditer', 'findall', 'split', 'sub', 'subn')) or not call.args:
+                        continue
+                    pat = self.folder.try_ev(mn, call.args[0], default=None)
+                    fpos = {'split': 3, 'sub': 4, 'subn': 4}.get(f.attr, 2)
+                    flags = 0
+                    if len(call.args) > fpos:
+                        flags = self.folder.try_ev(mn, call.args[fpos], default=None)
+                    for kw in call.keywords:
+                        if kw.arg == 'flags':
+                            flags = self.folder.try_ev(mn, kw.value, default=None)
+                    func = mod.enclosing_function(call)
+                    if isinstance(pat, str) and flags is not None:
+                        r_ = Rx(f'{mn}.{func}:direct:{f.attr}@{call.lineno}', pat, int(flags), mn, mod.where(call), 'instance', call, func)
+                        r_.uses.append((f.attr, mod.where(call), func))
+                        self.regexes.append(r_)
+                    else:
+                        self.unresolved.append((mod.where(call), f'{mn}.{func}', unparse(call)))
 
             # 3. instantiations of pattern classes with constant arguments
             for call in [c for c in ast.walk(mod.tree) if isinstance(c, ast.Call)]:
